@@ -94,8 +94,9 @@ class BiLinearForm(_Form):
                 # sum on gauss points
                 values_e = (values_e_pg * dX_e_pg).integrate()
 
-                # add data
-                data[:, i, j] = values_e
+                # add data (the form may return a scalar or a 1-component vector,
+                # e.g. `u * v` on a scalar field whose values are 1-vectors)
+                data[:, i, j] = np.asarray(values_e).reshape(-1)
 
         return data
 
